@@ -145,7 +145,7 @@ func retainedChanged() string {
 
 // readChunksSeq feeds the chunks of a stream of frames to the decoder the way successive calls of Client.receive do:
 // one cipher state for the stream, fresh frame state after every returned frame or error
-func readChunksSeq(mode cipher.BlockMode, chunks [][]byte) (res []string) {
+func readChunksSeq(mode cipher.BlockMode, chunks [][]byte, keepVars bool) (res []string) {
 	var buf []byte
 	var crcFlag bool
 	var frameSize uint32
@@ -160,7 +160,11 @@ func readChunksSeq(mode cipher.BlockMode, chunks [][]byte) (res []string) {
 			ms, err := rscp.Read(&mode, &buf, &crcFlag, &frameSize, &dataSize, append([]byte{}, c...))
 			if (err != nil && !errors.Is(err, rscp.ErrRscpInvalidFrameLength)) || ms != nil {
 				// the call of receive() ends here; the next one starts with fresh frame state and the same cipher state
-				buf, crcFlag, frameSize, dataSize = nil, false, 0, 0
+				if keepVars {
+					buf = buf[:0]
+				} else {
+					buf, crcFlag, frameSize, dataSize = nil, false, 0, 0
+				}
 			}
 			return resMsgs(ms, err)
 		}())
@@ -214,6 +218,9 @@ func deepEqualMsgs(a, b []rscp.Message) bool {
 	return msgsString(a) == msgsString(b) && reflect.DeepEqual(len(a), len(b))
 }
 
+// rtCrcPattern: checksum setting per frame of the streams written next (nil = one setting for the whole stream)
+var rtCrcPattern []bool
+
 func rtCase(cw *caseWriter, ms [][]rscp.Message, crc bool, key string, now time.Time, label string) {
 	enc, dec := cbcPair(key)
 	rec := &recorder{BlockMode: enc}
@@ -239,10 +246,21 @@ func rtCase(cw *caseWriter, ms [][]rscp.Message, crc bool, key string, now time.
 			chunks = append(chunks, streamCT[i:i+32])
 		}
 		var got []string
-		for _, r := range readChunksSeq(dec2, chunks) {
+		for _, r := range readChunksSeq(dec2, chunks, false) {
 			if r != "err invalidFrameLength" && r != "ok [ ]" {
 				got = append(got, r)
 			}
+		}
+		// a caller that keeps its variables and only empties the buffer (buf = buf[:0]) between frames gets the same
+		_, dec3 := cbcPair(key)
+		var got3 []string
+		for _, r := range readChunksSeq(dec3, chunks, true) {
+			if r != "err invalidFrameLength" && r != "ok [ ]" {
+				got3 = append(got3, r)
+			}
+		}
+		if strings.Join(got, " | ") == strings.Join(streamWant, " | ") {
+			got = got3
 		}
 		prop := "pass"
 		if strings.Join(got, " | ") != strings.Join(streamWant, " | ") {
@@ -261,6 +279,13 @@ func rtCase(cw *caseWriter, ms [][]rscp.Message, crc bool, key string, now time.
 		cw.add("skip", "skip", "N rt stream-blockwise frames="+fmt.Sprint(len(streamWant)), prop)
 	}()
 	for i, frame := range ms {
+		if rtCrcPattern != nil {
+			crc = rtCrcPattern[i%len(rtCrcPattern)]
+			c = "0"
+			if crc {
+				c = "1"
+			}
+		}
 		lbl := fmt.Sprintf("%s rt frame=%d/%d crc=%s %s %s", nt(nontrivialTree(frame)), i+1, len(ms), c, treeLabel(frame), label)
 		var ct []byte
 		var err error
@@ -334,6 +359,49 @@ func init() {
 			}
 			key := string(g.bytes(1 + g.pick(32)))
 			rtCase(cw, ms, g.chance(0.5), key, g.time(), "random")
+		}
+		// streams whose frames alternate between the two checksum settings; among them pairs of frames of equal total
+		// size (a checksummed frame with n data bytes and an unchecksummed one with n+4)
+		for i := 0; i < 12+n/20; i++ {
+			rtCrcPattern = [][]bool{{true, false}, {false, true}, {true, true, false}, {false, false, true}}[i%4]
+			var ms [][]rscp.Message
+			for f := 0; f < 4; f++ {
+				ms = append(ms, g.tree())
+			}
+			if i%2 == 0 {
+				k := g.pick(40)
+				ms = [][]rscp.Message{{{Tag: 0x00800001, DataType: rscp.ByteArray, Value: g.bytes(k)}}, {{Tag: 0x00800002, DataType: rscp.ByteArray, Value: g.bytes(k + 4)}},
+					{{Tag: 0x00800003, DataType: rscp.None}}, {{Tag: 0x00800004, DataType: rscp.Int32, Value: int32(-7)}}, {{Tag: 0x00800005, DataType: rscp.ByteArray, Value: g.bytes(k)}}}
+				if i%4 == 2 {
+					ms[0], ms[1] = ms[1], ms[0]
+				}
+			}
+			rtCase(cw, ms, true, string(g.bytes(1+g.pick(32))), g.time(), "mixed-checksum-stream")
+			rtCrcPattern = nil
+		}
+		// strings of equal length and equal CRC-32 (found by a birthday search), one after the other in one process:
+		// decoded values never depend on what was decoded before
+		{
+			seen := map[uint32]string{}
+			var pairs [][2]string
+			for k := 0; k < 400000 && len(pairs) < 3; k++ {
+				b := make([]byte, 8)
+				for j := range b {
+					b[j] = "abcdefghijklmnopqrstuvwxyzABCDEFGHIJKLMNOPQRSTUVWXYZ0123456789"[g.pick(62)]
+				}
+				h := crc32.ChecksumIEEE(b)
+				if o, ok := seen[h]; ok && o != string(b) {
+					pairs = append(pairs, [2]string{o, string(b)})
+				}
+				seen[h] = string(b)
+			}
+			for _, pr := range pairs {
+				for _, order := range [][2]string{{pr[0], pr[1]}, {pr[1], pr[0]}} {
+					ms := [][]rscp.Message{{{Tag: rscp.INFO_SERIAL_NUMBER, DataType: rscp.CString, Value: order[0]}},
+						{{Tag: rscp.INFO_SERIAL_NUMBER, DataType: rscp.CString, Value: order[1]}, {Tag: rscp.BAT_DATA, DataType: rscp.Container, Value: []rscp.Message{{Tag: rscp.BAT_DEVICE_NAME, DataType: rscp.CString, Value: order[0]}}}}}
+					rtCase(cw, ms, true, "k", g.time(), "crc-colliding-strings")
+				}
+			}
 		}
 		// sizes around the block boundaries and the 16-bit limits, one by one
 		var sizes []int
